@@ -26,6 +26,7 @@ from nrel.hive.state.driver_state.human_driver_state.human_driver_attributes imp
 from nrel.hive.state.driver_state.human_driver_state.human_unavailable_charge_parameters import (
     HumanUnavailableChargeParameters,
 )
+from nrel.hive.state.vehicle_state.charge_queueing import ChargeQueueing
 from nrel.hive.state.vehicle_state.charging_base import ChargingBase
 from nrel.hive.state.vehicle_state.charging_station import ChargingStation
 from nrel.hive.state.vehicle_state.dispatch_base import DispatchBase
@@ -218,8 +219,11 @@ class HumanUnavailable(DriverState):
                 if isinstance(my_vehicle.vehicle_state, DispatchBase):
                     # stick with the plan
                     return None
-                if isinstance(my_vehicle.vehicle_state, DispatchStation) or isinstance(
-                    my_vehicle.vehicle_state, ChargingStation
+                if (
+                    isinstance(my_vehicle.vehicle_state, DispatchStation)
+                    or isinstance(my_vehicle.vehicle_state, ChargingStation)
+                    # a vehicle waiting in the station's queue is also on its way to a plug
+                    or isinstance(my_vehicle.vehicle_state, ChargeQueueing)
                 ):
                     remaining_range = my_mechatronics.range_remaining_km(my_vehicle)
                     if (
